@@ -121,6 +121,12 @@ namespace smt
 
     SMT_EXPORT lin lin::operator-=(const lin &right) noexcept
     {
+        if (this == &right)
+        { // subtracting an expression from itself: the loop below would erase the very term it is standing on..
+            vars.clear();
+            known_term = rational::ZERO;
+            return *this;
+        }
         for (const auto &[v, c] : right.vars)
             if (const auto trm_it = vars.find(v); trm_it == vars.cend())
                 vars.emplace(v, -c);
